@@ -690,7 +690,15 @@ class EvalMixin:
                     if fk == "classmethod":
                         return [Res(st, SV("bound", f, x=SV("cls", clsof(obj.t), h=obj.h)))]
                     return [Res(st, SV("bound", f, x=obj))]
-                return [Res(st, self.class_attr(st, p, c, attr, n))]
+                cav = self.class_attr(st, p, c, attr, n)
+                if cav.k == "func" and isinstance(cav.t, ast.FunctionDef) and cav.x.get("cls") and isinstance(n.value, ast.Name):
+                    # `alias = method` in the class body: still a method when looked up on an instance
+                    fk2 = self.func_kind(cav.t)
+                    if fk2 is None:
+                        return [Res(st, SV("bound", cav, x=obj))]
+                    if fk2 == "classmethod":
+                        return [Res(st, SV("bound", cav, x=SV("cls", clsof(obj.t), h=obj.h)))]
+                return [Res(st, cav)]
             h = self.field_hint(obj.h, attr)
             if not st.spec:
                 self.check_held(st, obj, attr)
